@@ -581,6 +581,8 @@ val replace_default :
 
 val bin_op : node -> char list option
 
+val is_op : (node -> char list option) -> char list -> node -> bool
+
 val replace_expr_noexpand :
   config -> node -> ident_mode -> sp -> ident_kind -> acc -> pstate ->
   (node * acc) * pstate
@@ -721,8 +723,6 @@ val assign_op : node -> char list option
 val tpl_instrumentable : node -> bool
 
 val callee_is_expr : node -> bool
-
-val is_op : (node -> char list option) -> char list -> node -> bool
 
 type opclass =
 | OBlock
@@ -905,11 +905,13 @@ val lower_post : bool -> node -> node
 
 val lower : bool -> node -> node
 
+val spine_has_optional : node -> bool
+
+val strip_parens : node -> node
+
 val erase_ok : char list -> node list -> bool -> bool -> node -> node -> bool
 
 val first_diff_nospan : node -> node -> nat list option
-
-val spine_has_optional : node -> bool
 
 val norm_post : node -> node
 
